@@ -156,7 +156,7 @@ func SpellString(sb *strings.Builder, s string, c Chooser, o SpellOpts) {
 }
 
 func sameDouble(s string, f float64) bool {
-	g, err := strconv.ParseFloat(s, 64)
+	g, err := ParseDouble(s)
 	if err != nil {
 		return false
 	}
@@ -218,6 +218,10 @@ func SpellNumber(f float64, c Chooser, o SpellOpts) string {
 		cands = append(cands, fmt.Sprintf("%s%se%d", sign, digits, exp-(len(digits)-1)))
 		cands = append(cands, fmt.Sprintf("%s0.%se%d", sign, digits, exp+1))
 		cands = append(cands, fmt.Sprintf("%s0.000%sE%d", sign, digits, exp+4))
+		// very long literals: hundreds of zeros behind the digits (compensated by the exponent) or in front of them
+		z := 750 + c.Intn(600)
+		cands = append(cands, fmt.Sprintf("%s%s%se%d", sign, digits, strings.Repeat("0", z), exp-(len(digits)-1)-z))
+		cands = append(cands, fmt.Sprintf("%s0.%s%se%d", sign, strings.Repeat("0", z), digits, exp+1+z))
 	}
 	for tries := 0; tries < 4; tries++ {
 		s := cands[c.Intn(len(cands))]
